@@ -130,7 +130,11 @@ def run_job(job, gendir, workroot, vacuity=False, trace=True):
         res['status'] = 'inconclusive'; res['reason'] = 'negative control did not fail: %s' % missing; return res
     # limits of the HARNESS (an unwinding bound that is too small for the code as it is now, the fixed capacity of a container model) are not
     # statements about draco: such a failure makes the job undecided, never a violation
-    limits = [o for o in unexpected if '.unwind.' in (o['name'] or '') or '.recursion.' in (o['name'] or '') or (o['desc'] or '').startswith('stub:')]
+    # width-derived bounds are part of the claim (termination); input-length caps of bounded stand-ins are not -- unless the job says that the cap
+    # IS the claim (loops that must be bounded by the remaining input, run with a small remaining input)
+    bounded_job = (job.get('unwind_reason') or '').startswith('bounded') and not job.get('unwind_is_claim')
+    limits = [o for o in unexpected if (bounded_job and ('.unwind.' in (o['name'] or '') or '.recursion.' in (o['name'] or ''))) or (o['desc'] or '').startswith('stub:')]
+    if limits and any(o not in limits for o in unexpected): limits = []   # something else failed as well: report that
     if limits:
         res['failed'] = []; res['status'] = 'inconclusive'
         res['reason'] = 'harness limit reached (needs a larger bound / model; not a violation): ' + ', '.join('%s [%s]' % (o['name'], o['desc']) for o in limits[:4]); return res
